@@ -97,7 +97,11 @@ type iterState struct {
 
 func keyParts(k Value) []Value {
 	if o, ok := k.(VOpaque); ok && o.Kind == "tuple" {
-		return o.Data.([]Value)
+		var out []Value
+		for _, p := range o.Data.([]Value) {
+			out = append(out, keyParts(p)...)
+		}
+		return out
 	}
 	return []Value{k}
 }
